@@ -144,7 +144,7 @@ def runCase : CaseFn := fun c => Id.run do
       if !diverged then
         let level := d.bf.ents.length == d.ff.ents.length
         let want := if level || count ≤ d.ff.ents.length then "ok" else "err conn"
-        d := runAll d (opsFor d)
+        d := runSeq d (opsFor d)
         if want != obs then
           out := out.push s!"DIFF C08 case {c.num} line {ln}: resumed import impl=<{obs}> model=<{want}>"
           diverged := true
